@@ -44,53 +44,6 @@ def F(i, t, N, logx):
     return dag.mul(dag.fn("exp", dag.mul(N, dag.sub(t, logx))), dag.addn(terms))
 
 
-def _decide(text, rep):
-    """truth value of an ordering condition between the area bounds and the inversion point, on a representative of the regime
-    (a finite set of orderings); None if the condition mentions anything else"""
-    try:
-        tree = ast.parse(text, mode="eval").body
-    except SyntaxError:
-        return None
-
-    def val(n):
-        if isinstance(n, ast.Name):
-            if n.id not in rep:
-                raise KeyError(n.id)
-            return rep[n.id]
-        if isinstance(n, ast.Constant) and isinstance(n.value, (int, float)):
-            return Fraction(n.value)
-        if isinstance(n, ast.BinOp) and isinstance(n.op, (ast.Sub, ast.Add)):
-            a, b = val(n.left), val(n.right)
-            return a - b if isinstance(n.op, ast.Sub) else a + b
-        if isinstance(n, ast.UnaryOp) and isinstance(n.op, ast.USub):
-            return -val(n.operand)
-        if isinstance(n, ast.Call) and ast.unparse(n.func) in ("np.abs", "abs", "np.fabs") and len(n.args) == 1:
-            return abs(val(n.args[0]))
-        raise KeyError(ast.dump(n)[:30])
-
-    def truth(n):
-        if isinstance(n, ast.BoolOp):
-            vs = [truth(v) for v in n.values]
-            return all(vs) if isinstance(n.op, ast.And) else any(vs)
-        if isinstance(n, ast.UnaryOp) and isinstance(n.op, ast.Not):
-            return not truth(n.operand)
-        if isinstance(n, ast.Compare):
-            left = val(n.left)
-            for op, c in zip(n.ops, n.comparators):
-                r = val(c)
-                ok = {ast.Lt: left < r, ast.LtE: left <= r, ast.Gt: left > r, ast.GtE: left >= r, ast.Eq: left == r, ast.NotEq: left != r}[type(op)]
-                if not ok:
-                    return False
-                left = r
-            return True
-        raise KeyError("cond")
-
-    try:
-        return truth(tree)
-    except KeyError:
-        return None
-
-
 def run(chk):
     src = load()
     chk.rule_text = "log_evaluate_Nx == sum c_i [F_i(max) - w F_i(min)]; no poison from the dropped term; Talbot_jac == d Talbot_path/dt"
@@ -183,8 +136,10 @@ def run(chk):
                     return r
                 try:
                     t_ = ast.parse(s, mode="eval").body
-                    if isinstance(t_, ast.Compare) and len(t_.ops) == 1 and isinstance(t_.ops[0], (ast.GtE, ast.Gt)):
+                    if isinstance(t_, ast.Compare) and len(t_.ops) == 1 and isinstance(t_.ops[0], (ast.GtE, ast.Gt, ast.LtE, ast.Lt)):
                         lv, rv = box3[0].eval(t_.left, env), box3[0].eval(t_.comparators[0], env)
+                        if isinstance(t_.ops[0], (ast.LtE, ast.Lt)):
+                            lv, rv = rv, lv          # `bound <= point` is `point >= bound`
                         if lv is logx and dag.tonode(rv) is dag.fn("log", xhi):
                             return rname == "above"
                 except Exception:
@@ -211,12 +166,9 @@ def run(chk):
     fj = src.func("eko.mellin.Talbot_jac")
     r, o = dag.sym("r"), dag.sym("o")
     for branch in ("generic", "t=1/2"):
-        def assume3(text, env, branch=branch):
-            if "0.5" in text and "t" in text:
-                return branch != "generic"
-            return None
-
-        pe = PE(src, assume=assume3)
+        box5 = [None]
+        pe = PE(src, assume=lambda text, env: decide_on_values(box5[0], text, env))   # a generic parameter is not the singular point 1/2
+        box5[0] = pe
         from .. import kern
 
         pe.ext["builtins.complex"] = kern._complex
@@ -263,7 +215,9 @@ def run(chk):
     from ..pe import Opaque
 
     for lx, label in ((dag.sym("logx"), "generic x"), (0, "x = 1")):
-        pe = PE(src, assume=lambda text, env: False if "== 0" in text else None)   # a generic basis value / logx is not 0
+        box4 = [None]
+        pe = PE(src, assume=lambda text, env: decide_on_values(box4[0], text, env))   # a generic basis value / logx is not 0
+        box4[0] = pe
         seen = []
         pe.overrides["eko.interpolation.evaluate_grid"] = lambda p_, a, k: seen.append(list(a)) or dag.sym("PJ")
         o_ = Obj(qk)
